@@ -350,9 +350,13 @@ fn check_root(x: &WmoRoot, v: WmoVersion, r: &mut CaseResult, deep: bool) -> Roo
         }
     }
     if let (Some(mt), Some(tx)) = (wk.get("MOMT"), data("MOTX")) {
+        // a material offset that addresses the start of string k of the input's texture table
+        // must resolve to that string in the written MOTX
+        let starts: std::collections::HashMap<u32, usize> = (0..x.textures.len()).map(|k| (table_offset(&x.textures, k), k)).collect();
         'm: for i in 0..x.materials.len() {
             for (slot, at) in [(0usize, 12usize), (1, 24)] {
-                let Some(k) = material_texture_ref(i, slot, x.textures.len()) else { continue };
+                let input_offset = if slot == 0 { x.materials[i].texture1 } else { x.materials[i].texture2 };
+                let Some(&k) = starts.get(&input_offset) else { continue };
                 let off = u32_at(&w1, mt.start + 64 * i + at).unwrap_or(u32::MAX) as usize;
                 let got = cstr_at(tx, off);
                 if got != Some(x.textures[k].as_bytes()) {
@@ -773,10 +777,12 @@ fn k_for(space: &str, tier: Tier) -> usize {
 }
 
 /// thorough tier: deviations over the extended alphabets (on top of the full product of the quick levels)
-fn k_deep(space: &str) -> usize {
+/// ((from the empty baseline, from the full baseline) without heavy levels, vectors with a heavy level)
+fn k_deep(space: &str) -> ((usize, usize), usize) {
     match space {
-        "root" | "group" => 3,
-        _ => 2,
+        "root" => ((4, 3), 2),
+        "group" => ((4, 4), 2),
+        _ => ((2, 2), 1),
     }
 }
 
@@ -790,10 +796,11 @@ fn cfgs_for(space: &str, root: bool, tier: Tier) -> Vec<Vec<u8>> {
             }
         }
         Tier::Thorough => {
+            let (k, kh) = k_deep(space);
             if root {
-                configs_deep(&ROOT_SITES_X, &ROOT_PROD, &full_baseline(&ROOT_SITES), k_deep(space))
+                configs_deep(&ROOT_SITES_X, &ROOT_PROD, &editor_full_cfg(), k, kh)
             } else {
-                configs_deep(&GROUP_SITES_X, &GROUP_PROD, &full_baseline(&GROUP_SITES), k_deep(space))
+                configs_deep(&GROUP_SITES_X, &GROUP_PROD, &full_baseline(&GROUP_SITES), k, kh)
             }
         }
     }
@@ -1062,29 +1069,23 @@ impl Space for ConvertChain {
             if x.version != c {
                 add(&mut r, "convert_root: version field is not the target version afterwards".into(), format!("{:?}: {:?}", p, x.version));
             }
+            // the state the chain reached through the writer and both parsers
+            let oc = check_root(&x, c, &mut r, false);
             // what every version on the path can carry must be what the direct conversion and the original have
             let mut want = build_root(cfg, a);
-            let mut xn = build_root(cfg, a);
-            std::mem::swap(&mut xn, &mut x); // xn = chain result; x is rebuilt below for the round trip
-            let mut chain_n = xn;
             normalise_root(&mut want, low, low);
-            normalise_root(&mut chain_n, low, low);
+            normalise_root(&mut x, low, low);
             normalise_root(&mut direct, low, low);
-            let (ds, nf) = diff(&root_model(&want, None, false), &root_model(&chain_n, None, false), &[]);
+            let (ds, nf) = diff(&root_model(&want, None, false), &root_model(&x, None, false), &[]);
             r.count("fields_compared_conversion", nf);
             for d in &ds {
                 report(&mut r, "convert_root chain", "is not preserved", d);
             }
-            let (ds2, nf2) = diff(&root_model(&direct, None, false), &root_model(&chain_n, None, false), &[]);
+            let (ds2, nf2) = diff(&root_model(&direct, None, false), &root_model(&x, None, false), &[]);
             r.count("fields_compared_conversion", nf2);
             for d in &ds2 {
                 report(&mut r, "convert_root chain", "differs from the direct conversion", d);
             }
-            // the state the chain reached (not normalised) through the writer and both parsers
-            let mut reached = build_root(cfg, a);
-            let _ = conv.convert_root(&mut reached, b);
-            let _ = conv.convert_root(&mut reached, c);
-            let oc = check_root(&reached, c, &mut r, false);
             r.outcome = format!("chain_root {} parse_root={} second={}", oc.tiling, oc.parse_root, oc.second);
         } else {
             let mut g = build_group(cfg);
@@ -1125,6 +1126,101 @@ impl Space for ConvertChain {
                 report(&mut r, "convert_group chain", "differs from the direct conversion", d);
             }
             r.outcome = format!("chain_group {} native={}", oc.tiling, oc.native);
+        }
+        r
+    }
+    fn case_timeout(&self) -> u64 {
+        120
+    }
+}
+
+/// Thorough tier: length ladders. One section holds exactly n records (n = 0..=300), or one string
+/// of exactly n bytes, the other sections are all empty or all full.
+struct Ladder {
+    root: bool,
+    /// (axis, n)
+    steps: Vec<(&'static str, usize)>,
+}
+impl Ladder {
+    fn new(root: bool) -> Self {
+        let mut steps = vec![];
+        if root {
+            for a in ROOT_LADDERS {
+                if ladder_is_2d(a) {
+                    for n in 0..41 * 41 {
+                        steps.push((a, n));
+                    }
+                } else {
+                    for n in root_ladder_min(a)..=300 {
+                        steps.push((a, n));
+                    }
+                }
+            }
+        } else {
+            for a in GROUP_LADDERS {
+                if a == "liquid" {
+                    for n in 0..578 {
+                        steps.push((a, n));
+                    }
+                } else {
+                    for n in 0..=300 {
+                        steps.push((a, n));
+                    }
+                    if GROUP_SITES_X.iter().any(|s| s.name == a && is_heavy(s.levels[4])) {
+                        for n in [65534, 65535, 65536] {
+                            steps.push((a, n));
+                        }
+                    }
+                }
+            }
+        }
+        Ladder { root, steps }
+    }
+    fn split(&self, i: u64) -> ((&'static str, usize), bool, WmoVersion) {
+        (self.steps[(i / 10) as usize], i / 5 % 2 == 1, VERSIONS[(i % 5) as usize])
+    }
+    fn base(&self, full: bool) -> Vec<u8> {
+        match (self.root, full) {
+            (true, false) => vec![0; ROOT_SITES.len()],
+            (true, true) => editor_full_cfg(),
+            (false, false) => vec![0; GROUP_SITES.len()],
+            (false, true) => full_baseline(&GROUP_SITES),
+        }
+    }
+    fn step_string(&self, st: (&'static str, usize)) -> String {
+        if st.0 == "liquid" {
+            let (w, h, t) = liquid_ladder(st.1);
+            format!("liquid={}x{}{}", w, h, if t { "+tiles" } else { "" })
+        } else if let Some((a, b)) = st.0.split_once('*') {
+            format!("{}={},{}={}", a, st.1 % 41, b, st.1 / 41)
+        } else {
+            format!("{}={}", st.0, st.1)
+        }
+    }
+}
+impl Space for Ladder {
+    fn len(&self) -> u64 {
+        self.steps.len() as u64 * 10
+    }
+    fn describe(&self, i: u64) -> Value {
+        let (st, full, v) = self.split(i);
+        json!({"kind": if self.root { "root" } else { "group" }, "version": vname(v), "cfg": cfg_string(sites_of(self.root, true), &self.base(full)), "ladder": self.step_string(st)})
+    }
+    fn run(&self, i: u64) -> CaseResult {
+        let (st, full, v) = self.split(i);
+        let mut r = CaseResult::new();
+        r.key = format!("ladder{}:{}:{}:{}:{}", self.root, st.0, st.1, full, vname(v));
+        r.nontrivial = full || st.1 > 0;
+        r.count("ladder_steps", 1);
+        let cfg = self.base(full);
+        if self.root {
+            let x = build_root_with(&cfg, v, Some(st));
+            let oc = check_root(&x, v, &mut r, true);
+            r.outcome = format!("root tiling={} parse_root={} parse_wmo={} second={}", oc.tiling, oc.parse_root, oc.parse_wmo, oc.second);
+        } else {
+            let g = build_group_with(&cfg, Some(st));
+            let oc = check_group(&g, v, &mut r, true);
+            r.outcome = format!("group tiling={} native={} reframed={}", oc.tiling, oc.native, oc.reframed);
         }
         r
     }
@@ -1439,7 +1535,7 @@ impl Space for LegacyGroupParser {
 fn chain_cfgs(root: bool) -> Vec<Vec<u8>> {
     if root {
         let one: Vec<&[u8]> = ROOT_SITES_X.iter().map(|_| &[0u8][..]).collect();
-        configs_deep(&ROOT_SITES_X, &one, &editor_full_cfg(), 2)
+        configs_deep(&ROOT_SITES_X, &one, &editor_full_cfg(), (2, 2), 1)
             .into_iter()
             .filter(|c| {
                 let l = ROOT_SITES_X[7].levels[c[7] as usize];
@@ -1448,7 +1544,7 @@ fn chain_cfgs(root: bool) -> Vec<Vec<u8>> {
             .collect()
     } else {
         let one: Vec<&[u8]> = GROUP_SITES_X.iter().map(|_| &[0u8][..]).collect();
-        configs_deep(&GROUP_SITES_X, &one, &full_baseline(&GROUP_SITES), 2)
+        configs_deep(&GROUP_SITES_X, &one, &full_baseline(&GROUP_SITES), (2, 2), 1)
     }
 }
 
@@ -1462,6 +1558,8 @@ fn build(name: &str, _arg: &str, tier: Tier) -> Box<dyn Space> {
         "convert_chain_root" => Box::new(ConvertChain { root: true, cfgs: chain_cfgs(true) }),
         "convert_chain_group" => Box::new(ConvertChain { root: false, cfgs: chain_cfgs(false) }),
         "editor" => Box::new(EditorSpace { max_len: 4 }),
+        "ladder_root" => Box::new(Ladder::new(true)),
+        "ladder_group" => Box::new(Ladder::new(false)),
         "legacy_group_parser" => Box::new(LegacyGroupParser),
         _ => panic!("space {name}"),
     }
@@ -1534,9 +1632,9 @@ fn main() {
             "{base_rule} Round-trip spaces: every level vector with <= {kr} sections deviating from the all-empty and from the all-full baseline x 5 versions Classic..MoP. Conversion spaces: every vector with <= {kc} deviations x all 25 (from,to) pairs. A case is non-trivial when at least one section is populated; distinct by (level vector, version[s])."
         ),
         Tier::Thorough => format!(
-            "{base_rule} Thorough tier: (1) the FULL PRODUCT of these levels (plus doodad defs 'synth': name offsets the writer's synthesised name table reproduces, so that the second-write clause is judged with doodads present) x 5 versions for the round-trip spaces and x all 25 (from,to) pairs for the conversion spaces; (2) extended levels per section: 300 records (counts above 255/256) in every list; strings longer than 255 bytes and string tables larger than 65536 bytes (textures, group names); duplicate texture names; unnamed / non-ASCII / 18 one-flag groups; 12 one-flag materials; portals with 300 / 65535 / 65536 vertices and a portal starting at vertex 65536 (16-bit MOPT fields); doodad-set names of 20 and 25 bytes and non-ASCII; non-ASCII and 300-byte skybox; all header flags, extreme floats (infinities, -0.0, MAX, subnormal) in bounds and lights, stale-low header counts; shared and 300 doodad definitions; groups with 300 and 65537/65538 vertices, normals, tex coords, colours, indices, doodad refs; 16-bit material ids, 300 batches, 12 leaf/inner BSP nodes on all axes, 300 BSP nodes; liquids 0x0, 1x1 and 5x1 with empty tile lists, 9x9 with all flag/type bits, 257x3; all 18 group flags, extreme bounds, 0xFFFFFFFF name offset: every vector over the extended alphabets with <= {kx} sections (round trip) / <= {kcx} sections (conversion) deviating from the all-empty and the all-full baseline; (3) conversion chains A->B->C over all 125 version triples (<= 2 deviations, extended alphabets) against the direct conversion A->C and the original, followed by the whole write->parse oracle on the reached state; (4) WmoEditor operation sequences: every sequence of <= 4 of 18 operations (add/remove material, texture, group, doodad, doodad set, vertex; convert_to_version; recalculate bounds; reload = save_root -> parse_root -> new editor) from 3 start states (empty, full, full parsed from written bytes) x 5 versions, saved with save_root/save_group and judged by the same oracles. Additional thorough-tier oracles: discover_wmo_chunks agrees with the independent walker; parse_root -> convert_root(written version) -> write_root and parse_root -> WmoEditor::convert_to_version -> save_root reproduce the first write byte for byte; when the first write->parse differs, the second generation is judged on the remaining fields; liquid type of a group seen through parse_wmo. A case is non-trivial when at least one section is populated / one operation applied; distinct by (level vector, version[s]) or (start, version, operation sequence).",
-            kx = k_deep("root"),
-            kcx = k_deep("convert_root"),
+            "{base_rule} Thorough tier: (1) the FULL PRODUCT of these levels (plus doodad defs 'synth': name offsets the writer's synthesised name table reproduces, so that the second-write clause is judged with doodads present) x 5 versions for the round-trip spaces and x all 25 (from,to) pairs for the conversion spaces; (2) extended levels per section: 300 records (counts above 255/256) in every list; strings longer than 255 bytes and string tables larger than 65536 bytes (textures, group names); duplicate texture names; unnamed / non-ASCII / 18 one-flag groups; 12 one-flag materials; portals with 300 / 65535 / 65536 vertices and a portal starting at vertex 65536 (16-bit MOPT fields); doodad-set names of 20 and 25 bytes and non-ASCII; non-ASCII and 300-byte skybox; all header flags, extreme floats (infinities, -0.0, MAX, subnormal) in bounds and lights, stale-low header counts; shared and 300 doodad definitions; groups with 300 and 65537/65538 vertices, normals, tex coords, colours, indices, doodad refs; 16-bit material ids, 300 batches, 12 leaf/inner BSP nodes on all axes, 300 BSP nodes; liquids 0x0, 1x1 and 5x1 with empty tile lists, 9x9 with all flag/type bits, 257x3; all 18 group flags, extreme bounds, 0xFFFFFFFF name offset: every vector over the extended alphabets with <= {kx} sections (round trip, empty/full baseline) / <= {kcx} sections (conversion) deviating from the all-empty and the all-full baseline (levels that write about a megabyte: <= 2 / <= 1 sections); (3) conversion chains A->B->C over all 125 version triples (<= 2 deviations, extended alphabets) against the direct conversion A->C and the original, followed by the whole write->parse oracle on the reached state; (4) WmoEditor operation sequences: every sequence of <= 4 of 18 operations (add/remove material, texture, group, doodad, doodad set, vertex; convert_to_version; recalculate bounds; reload = save_root -> parse_root -> new editor) from 3 start states (empty, full, full parsed from written bytes) x 5 versions, saved with save_root/save_group and judged by the same oracles. Additional thorough-tier oracles: discover_wmo_chunks agrees with the independent walker; parse_root -> convert_root(written version) -> write_root and parse_root -> WmoEditor::convert_to_version -> save_root reproduce the first write byte for byte; when the first write->parse differs, the second generation is judged on the remaining fields; liquid type of a group seen through parse_wmo. A case is non-trivial when at least one section is populated / one operation applied; distinct by (level vector, version[s]) or (start, version, operation sequence).",
+            kx = format!("{}/{} (root), {}/{} (group)", k_deep("root").0 .0, k_deep("root").0 .1, k_deep("group").0 .0, k_deep("group").0 .1),
+            kcx = k_deep("convert_root").0 .0,
         ),
     };
     c.assume("content equality is judged on a canonical per-section/per-field rendering (the library types have no PartialEq); derived fields are excluded: WmoRoot.version (all of Classic..MoP are stored as 17), HAS_SKYBOX header flag (derived from the skybox), WmoLight.properties (derived from light_type), texture_offset_index_map (checked separately), plane distance of portals, framebuffer_blend / set_index / convex volume planes / group materials (not stated by the property, no slot in the written format; kept at their defaults in the inputs)");
@@ -1548,7 +1646,7 @@ fn main() {
     }
     let spaces: &[&str] = match tier {
         Tier::Quick => &["root", "group", "convert_root", "convert_group", "legacy_group_parser"],
-        Tier::Thorough => &["root", "group", "convert_root", "convert_group", "convert_chain_root", "convert_chain_group", "editor", "legacy_group_parser"],
+        Tier::Thorough => &["root", "group", "ladder_root", "ladder_group", "convert_root", "convert_group", "convert_chain_root", "convert_chain_group", "editor", "legacy_group_parser"],
     };
     for s in spaces {
         c.run_space(s, "");
@@ -1587,9 +1685,15 @@ fn main() {
                     "group_full_product_levels": GROUP_PROD.iter().map(|p| p.len()).collect::<Vec<_>>(),
                     "root_full_product_vectors": ROOT_PROD.iter().map(|p| p.len() as u64).product::<u64>(),
                     "group_full_product_vectors": GROUP_PROD.iter().map(|p| p.len() as u64).product::<u64>(),
-                    "max_deviations_extended_roundtrip": k_deep("root"),
-                    "max_deviations_extended_conversion": k_deep("convert_root"),
+                    "max_deviations_extended_root_from_empty_and_full": [k_deep("root").0 .0, k_deep("root").0 .1],
+                    "max_deviations_extended_group_from_empty_and_full": [k_deep("group").0 .0, k_deep("group").0 .1],
+                    "max_deviations_extended_roundtrip_with_megabyte_level": k_deep("root").1,
+                    "max_deviations_extended_conversion": k_deep("convert_root").0 .0,
+                    "max_deviations_extended_conversion_with_megabyte_level": k_deep("convert_root").1,
                     "max_deviations_extended_chain": 2,
+                    "root_ladder_axes": ROOT_LADDERS.len(),
+                    "group_ladder_axes": GROUP_LADDERS.len(),
+                    "ladder_lengths": "0..=300 per axis (liquid: 17 x 17 grid sizes x tile list present/absent; group lists also 65534..=65536); two-dimensional ladders 41 x 41",
                     "root_level_vectors": cfgs_for("root", true, tier).len(),
                     "group_level_vectors": cfgs_for("group", false, tier).len(),
                     "root_conversion_vectors": cfgs_for("convert_root", true, tier).len(),
@@ -1609,7 +1713,160 @@ fn main() {
 
 // ------------------------------------------------------------------ stand-alone reproductions
 
+// ---- reproductions of the thorough-tier findings: public API of wow-wmo only
+
+fn bare_root() -> WmoRoot {
+    let zero = Vec3 { x: 0.0, y: 0.0, z: 0.0 };
+    WmoRoot {
+        version: WmoVersion::Classic,
+        materials: vec![],
+        groups: vec![],
+        portals: vec![],
+        portal_references: vec![],
+        visible_block_lists: vec![],
+        lights: vec![],
+        doodad_defs: vec![],
+        doodad_sets: vec![],
+        bounding_box: BoundingBox { min: zero, max: zero },
+        textures: vec![],
+        texture_offset_index_map: Default::default(),
+        header: WmoHeader {
+            n_materials: 0,
+            n_groups: 0,
+            n_portals: 0,
+            n_lights: 0,
+            n_doodad_names: 0,
+            n_doodad_defs: 0,
+            n_doodad_sets: 0,
+            flags: WmoFlags::empty(),
+            ambient_color: Color { r: 0, g: 0, b: 0, a: 0 },
+        },
+        skybox: None,
+        convex_volume_planes: None,
+    }
+}
+
+fn bare_group() -> WmoGroup {
+    let zero = Vec3 { x: 0.0, y: 0.0, z: 0.0 };
+    WmoGroup {
+        header: WmoGroupHeader { flags: WmoGroupFlags::empty(), bounding_box: BoundingBox { min: zero, max: zero }, name_offset: 0, group_index: 0 },
+        materials: vec![],
+        vertices: vec![],
+        normals: vec![],
+        tex_coords: vec![],
+        batches: vec![],
+        indices: vec![],
+        vertex_colors: None,
+        bsp_nodes: None,
+        liquid: None,
+        doodad_refs: None,
+    }
+}
+
+fn write_then_parse(x: &WmoRoot) -> std::result::Result<WmoRoot, String> {
+    let mut c = Cursor::new(Vec::new());
+    WmoWriter::new().write_root(&mut c, x, WmoVersion::Classic).map_err(|e| format!("write_root -> Err({e})"))?;
+    let w = c.into_inner();
+    WmoParser::new().parse_root(&mut Cursor::new(&w[..])).map_err(|e| format!("parse_root -> Err({e})"))
+}
+
+fn repro_named(name: &str) -> bool {
+    match name {
+        "set_name" => {
+            println!("== set_name: doodad set whose name has 20 bytes, write_root -> parse_root");
+            let mut x = bare_root();
+            x.doodad_sets.push(WmoDoodadSet { name: "Set_exactly_20_bytes".into(), start_doodad: 0, n_doodads: 0 });
+            match write_then_parse(&x) {
+                Ok(p) => println!("   written {:?}\n   parsed  {:?}", x.doodad_sets[0].name, p.doodad_sets[0].name),
+                Err(e) => println!("   {e} (a refusal is fine)"),
+            }
+        }
+        "empty_group_name" => {
+            println!("== empty_group_name: one unnamed group, write_root -> parse_root -> write_root");
+            let zero = Vec3 { x: 0.0, y: 0.0, z: 0.0 };
+            let mut x = bare_root();
+            x.groups.push(WmoGroupInfo { flags: WmoGroupFlags::empty(), bounding_box: BoundingBox { min: zero, max: zero }, name: String::new() });
+            let mut c = Cursor::new(Vec::new());
+            WmoWriter::new().write_root(&mut c, &x, WmoVersion::Classic).unwrap();
+            let w1 = c.into_inner();
+            let p = WmoParser::new().parse_root(&mut Cursor::new(&w1[..])).unwrap();
+            let mut c = Cursor::new(Vec::new());
+            WmoWriter::new().write_root(&mut c, &p, WmoVersion::Classic).unwrap();
+            let w2 = c.into_inner();
+            println!("   written name {:?}, parsed name {:?}; first write {} bytes, second write {} bytes", x.groups[0].name, p.groups[0].name, w1.len(), w2.len());
+        }
+        "portal_count" | "portal_start" => {
+            let mut x = bare_root();
+            let poly = |n: usize, salt: f32| WmoPortal { vertices: (0..n).map(|i| Vec3 { x: i as f32, y: salt, z: 0.0 }).collect(), normal: Vec3 { x: 0.0, y: 1.0, z: 0.0 } };
+            if name == "portal_count" {
+                println!("== portal_count: one portal with 65536 vertices (MOPT count is 16 bits wide)");
+                x.portals.push(poly(65536, 1.0));
+            } else {
+                println!("== portal_start: five portals of 16384 vertices; the fifth starts at vertex 65536 (MOPT start is 16 bits wide)");
+                for k in 0..5 {
+                    x.portals.push(poly(16384, k as f32));
+                }
+            }
+            match write_then_parse(&x) {
+                Ok(p) => {
+                    let last = x.portals.len() - 1;
+                    println!(
+                        "   written: portal {last} has {} vertices, first {:?}\n   parsed:  portal {last} has {} vertices, first {:?}",
+                        x.portals[last].vertices.len(),
+                        x.portals[last].vertices.first(),
+                        p.portals[last].vertices.len(),
+                        p.portals[last].vertices.first()
+                    );
+                }
+                Err(e) => println!("   {e} (a refusal is fine)"),
+            }
+        }
+        "liquid_zero" => {
+            println!("== liquid_zero: group with a 0x0 liquid (no vertices), write_group");
+            let mut g = bare_group();
+            g.liquid = Some(WmoLiquid { liquid_type: 1, flags: 0, width: 0, height: 0, vertices: vec![], tile_flags: None });
+            match guarded(|| {
+                let mut c = Cursor::new(Vec::new());
+                WmoWriter::new().write_group(&mut c, &g, WmoVersion::Classic).map(|_| c.into_inner().len())
+            }) {
+                Ok(Ok(n)) => println!("   written, {n} bytes"),
+                Ok(Err(e)) => println!("   write_group -> Err({e}) (a refusal is fine)"),
+                Err((f, l, m)) => println!("   write_group PANICS at {f}:{l}: {m} (build with overflow checks; without them the subtraction wraps)"),
+            }
+        }
+        "liquid_type" => {
+            println!("== liquid_type: group with a 2x2 liquid of type 7, write_group -> parse_wmo");
+            let mut g = bare_group();
+            let v = |i: usize| WmoLiquidVertex { position: Vec3 { x: i as f32, y: 0.0, z: 0.0 }, height: 1.5 };
+            g.liquid = Some(WmoLiquid { liquid_type: 7, flags: 0, width: 2, height: 2, vertices: (0..4).map(v).collect(), tile_flags: Some(vec![1]) });
+            let mut c = Cursor::new(Vec::new());
+            WmoWriter::new().write_group(&mut c, &g, WmoVersion::Classic).unwrap();
+            let w = c.into_inner();
+            match parse_wmo(&mut Cursor::new(&w[..])) {
+                Ok(ParsedWmo::Group(n)) => println!("   written liquid_type 7; parse_wmo liquid_header = {:?}", n.liquid_header),
+                other => println!("   parse_wmo -> {:?}", other.map(|_| "not a group").map_err(|e| e.to_string())),
+            }
+        }
+        _ => return false,
+    }
+    true
+}
+
+const REPRO_NAMES: [&str; 6] = ["set_name", "empty_group_name", "portal_count", "portal_start", "liquid_zero", "liquid_type"];
+
 fn repro() {
+    install_panic_hook();
+    let args: Vec<String> = std::env::args().collect();
+    if let Some(name) = args.iter().position(|a| a == "--repro").and_then(|k| args.get(k + 1)) {
+        if !repro_named(name) {
+            eprintln!("unknown reproduction {name:?}; known: {REPRO_NAMES:?} (no name: all)");
+            std::process::exit(2);
+        }
+        return;
+    }
+    for n in REPRO_NAMES {
+        repro_named(n);
+    }
     println!("== R1: two groups with different names, write_root -> parse_root");
     let mut cfg = vec![0u8; 11];
     cfg[2] = 2;
